@@ -9,7 +9,7 @@ CLAIM = {
  "note": "Trusted: Lean kernel + standard axioms, table extractor, Python float printing/parsing (float(str(x)) == x), the regular expressions of the ProjectQ reader (validated only by the correspondence), json module. OpenQASM / qiskit / braket writers are not installed: outside the quantifier here. Known finding: the ProjectQ reader drops Measure instructions.",
  "technique": "Lean 4 round-trip theorems over abstract syntax with regenerated dictionaries + record-level correspondence and real round trips"}
 
-RULE = ("random circuits (width 1-6, fixed width with idle qubits or not) over each format's expressible gate set, parameters from {negative, tiny (1e-05 formatting), large, integer-valued, generic}; "
+RULE = ("random circuits (width 1-6, and 10-101 in a quarter of the cases, fixed width with idle qubits or not) over each format's expressible gate set, parameters from {negative, tiny (1e-05 formatting), large, integer-valued, generic}; "
         "a stream with one inexpressible gate; repr/eval on all gate shapes; operator round trips through cirq; non-trivial if the circuit has >= 2 gates; distinct by hash")
 TRUSTED = ["Python float repr round trip"]
 ASSUMPTIONS = []
@@ -36,7 +36,8 @@ def same(a, b):
 
 
 def rand_circuit(rng, names, max_ctl):
-    n = rng.randint(1, 6)
+    # mostly small registers; two-digit qubit indices (10+) and registers of 100+ qubits in a share of the cases
+    n = rng.randint(1, 6) if rng.random() < 0.75 else rng.choice([10, 11, 12, 13, 20, 101])
     gs = vlib.rand_gate_list(rng, n, rng.randint(0, 10), [g for g in names if g not in ("XX", "SWAP") or n >= 2] or ["H"], max_controls=max_ctl, corr=0.0, var_prob=0.0)
     floats = {}
     for i, g in enumerate(gs):
@@ -87,7 +88,11 @@ def ionq_case(ctx, gs, floats, fixed):
             break
     else:
         rec_mismatch = None
-    c2 = translate_circuit(d, "tangelo", source="ionq")
+    try:
+        c2 = translate_circuit(d, "tangelo", source="ionq")
+    except Exception as e:
+        ctx.violation(f"re-importing the IonQ JSON the library itself wrote (width {c.width}, {len(orig)} gates) raises {vlib.err_name(e)}: {str(e)[:100]}", case)
+        return False
     back = [dump_tangelo_gate(g) for g in c2]
     if c2.width != c.width or len(back) != len(orig) or not all(same(a, b) for a, b in zip(orig, back)):
         ctx.violation(f"IonQ JSON round trip altered the circuit: width {c.width}->{c2.width}; first difference "
@@ -152,7 +157,11 @@ def pq_case(ctx, gs, floats, fixed):
             break
     else:
         rec_mismatch = None
-    c2 = translate_circuit(text, "tangelo", source="projectq")
+    try:
+        c2 = translate_circuit(text, "tangelo", source="projectq")
+    except Exception as e:
+        ctx.violation(f"re-importing the ProjectQ text the library itself wrote (width {c.width}, {len(orig)} gates) raises {vlib.err_name(e)}: {str(e)[:100]}", case)
+        return False
     back = [dump_tangelo_gate(g) for g in c2]
     has_meas = any(g["n"] == "MEASURE" for g in gs)
     if has_meas:
